@@ -22,10 +22,11 @@
   pendingFinalTaskStateCh yields `hang`, a handler error that ends eventLoop
   yields `loopexit`.
 
-  Five repairs of the executor are switches of the model (`Cfg`): `codeCfg` is the
-  code as it is (all five in), `legacyCfg` the code before them (the former
-  refutations stay true statements about that code). Props/C17 ties every switch
-  of `codeCfg` to a fact re-extracted from the source.
+  Seven repairs of the executor are switches of the model (`Cfg`): `codeCfg` is the
+  code as it is (all seven in), `legacyCfg` the code before them, `overlapLegacyCfg` the
+  code before the last two (the repairs of two defects that need overlapping requests:
+  Model/ExecOverlap) — the former refutations stay true statements about that code.
+  Props/C17 ties every switch of `codeCfg` to a fact re-extracted from the source.
 
   What the children do is a parameter (`Beh`); operating-system facts used:
   a process group that received SIGKILL is gone; SIGTERM/SIGINT end a process
@@ -48,17 +49,32 @@ structure Cfg where
   killInactiveIgnored : Bool
   /-- basicTaskBase.Kill stops the TASK_RUNNING timer armed by doLaunch -/
   killStopsTimer : Bool
+  /-- handleKillEvent takes the task out of activeTasks in the critical section that looks it up (before: only
+      the goroutine it starts removed the entry, a second KILL handled before that goroutine ran found the task
+      again). Matters only when requests overlap (Model/ExecOverlap): in a plain schedule the entry is gone when
+      the next request is handled either way. -/
+  killClaimsEntry : Bool
+  /-- startBasicTask works on the command it built (a local pointer) and only publishes it in t.taskCmd
+      (before: StdoutPipe/StderrPipe/Start went through the field and the reaper goroutine copied the field when
+      it ran, while basicTaskBase.Kill sets the field to nil from another goroutine). Matters only when requests
+      overlap (Model/ExecOverlap). -/
+  startOwnsCmd : Bool
   deriving DecidableEq, Repr, Inhabited
 
 /-- The code before the repairs. -/
 def legacyCfg : Cfg :=
   { stopNilSafe := false, launchNilSafe := false, startFailSafe := false, killInactiveIgnored := false,
-    killStopsTimer := false }
+    killStopsTimer := false, killClaimsEntry := false, startOwnsCmd := false }
+
+/-- The code after the first five repairs and before the two that concern overlapping requests (/repo d83ccb7). -/
+def overlapLegacyCfg : Cfg :=
+  { stopNilSafe := true, launchNilSafe := true, startFailSafe := true, killInactiveIgnored := true,
+    killStopsTimer := true, killClaimsEntry := false, startOwnsCmd := false }
 
 /-- The code as it is (identified with the facts extracted from the source in Props/C17). -/
 def codeCfg : Cfg :=
   { stopNilSafe := true, launchNilSafe := true, startFailSafe := true, killInactiveIgnored := true,
-    killStopsTimer := true }
+    killStopsTimer := true, killClaimsEntry := true, startOwnsCmd := true }
 
 /-- controlmode.BASIC / HOOK / DIRECT(=controllable); `nodata` = TaskInfo.Data missing. -/
 inductive Kind where
@@ -126,8 +142,9 @@ inductive Site where
   | ctlLaunch                -- controllabletask.go Launch goroutine: taskCmd.Process.Pid after a failed Start
   | ensureBasicTaskKilled    -- basictaskcommon.go: taskCmd.ProcessState.Exited() with ProcessState == nil
   | ctlKill                  -- controllabletask.go Kill: t.rpc.GetState with t.rpc == nil
-  | startBasicTask           -- basictaskcommon.go startBasicTask: t.taskCmd used (pipes, Start, the reaper goroutine's
-                             -- copy) after a concurrent Kill set it to nil — only in an overlap of the two requests
+  | startBasicTask           -- basictaskcommon.go startBasicTask (before it worked on its own pointer): t.taskCmd used
+                             -- (pipes, Start, the reaper goroutine's copy) after a concurrent Kill set it to nil — only
+                             -- in an overlap of the two requests
   deriving DecidableEq, Repr, Inhabited
 
 inductive Res where
@@ -328,7 +345,7 @@ def step (c : Cfg) (s : St) (op : Op) : St × Res :=
           -- GetState ok, walk to DONE, rpc = nil, pending <- FINISHED, DONE_TIMEOUT, escalate, reaper
           let (sg, c) := escalate s.beh
           (reapCtl { s with dev := .DONE, pending := some .FINISHED, sigs := sg, killed := true } c, .ok)
-      | .nodata => (s, .none)
+      | .nodata => ({ s with active := false }, .none)    -- no task object (never active): the entry, if any, goes
   | .trigger =>
     if !s.active then (s, .notask)
     else if s.kind = .hook then
